@@ -1,5 +1,7 @@
 (* C11 -- read-only handles and /PROTECT levels are never bypassed.
-   Only the property theorems; model in C11/Protect.v, public API and source facts in Gen/PublicApi.v. *)
+   Only the property theorems; model in C11/Protect.v, public API and source facts in Gen/PublicApi.v.
+   `exec ag ug`: ag = the affix calls test access mode and protection (read from the source: true on the frozen tree),
+   ug = gd_rename(GD_REN_UPDB) tests the protection of the fragments whose fields it rewrites (false: open finding). *)
 From Coq Require Import List String Bool Arith.
 From GD Require Import Gen.PublicApi C11.Protect C11.ProtectProofs.
 Import ListNotations.
@@ -8,36 +10,34 @@ Theorem api_covered : forallb is_classified public_api = true.
 Proof. exact api_covered_l. Qed.
 Theorem mutators_guarded_in_source : forallb mutator_ok public_api = true.
 Proof. exact mutators_guarded_l. Qed.
+Theorem affix_calls_guarded_in_source : gen_affix_guarded = true.
+Proof. exact gen_affix_guarded_true. Qed.
 
-Definition rdonly_inert_statement (ag : bool) : Prop :=
-  forall s c, rw s = false -> exec ag s c = (RAccMode, s).
-Theorem rdonly_inert : forall s c, rw s = false -> exec true s c = (RAccMode, s).
-Proof. intros s c H. apply rdonly_inert_l; [exact H|right; reflexivity]. Qed.
-Theorem rdonly_inert_partial : forall s c, rw s = false -> guarded_call gen_affix_guarded c -> gen_exec s c = (RAccMode, s).
-Proof. exact (rdonly_inert_l gen_affix_guarded). Qed.
-Theorem rdonly_inert_refuted : exists s c, rw s = false /\ exec false s c <> (RAccMode, s).
+Definition rdonly_inert_statement (ag ug : bool) : Prop :=
+  forall s c, rw s = false -> exec ag ug s c = (RAccMode, s).
+Theorem rdonly_inert : forall ug s c, rw s = false -> exec true ug s c = (RAccMode, s).
+Proof. intros ug s c H. apply rdonly_inert_l; [exact H|right; reflexivity]. Qed.
+Theorem rdonly_inert_as_built : rdonly_inert_statement gen_affix_guarded gen_updb_guarded.
+Proof. exact rdonly_inert_gen. Qed.
+Theorem rdonly_inert_refuted_old_affix : exists s c, rw s = false /\ exec false true s c <> (RAccMode, s).
 Proof. exact rdonly_inert_refuted_unguarded. Qed.
 
-Definition protect_respected_statement (ag : bool) : Prop :=
-  forall s c, is_protect_call c = false -> unchanged_protected s (snd (exec ag s c)).
-Theorem protect_respected : forall s c, is_protect_call c = false -> unchanged_protected s (snd (exec true s c)).
-Proof. intros s c H. apply protect_respected_l; [exact H|right; reflexivity]. Qed.
-Theorem protect_respected_partial : forall s c, is_protect_call c = false -> guarded_call gen_affix_guarded c ->
+Definition protect_respected_statement (ag ug : bool) : Prop :=
+  forall s c, is_protect_call c = false -> unchanged_protected s (snd (exec ag ug s c)).
+Theorem protect_respected : protect_respected_statement true true.
+Proof. intros s c H. apply protect_respected_l; [exact H|right; reflexivity|right; reflexivity]. Qed.
+Theorem protect_respected_partial : forall s c, is_protect_call c = false -> is_updb_call c = false ->
   unchanged_protected s (snd (gen_exec s c)).
-Proof. exact (protect_respected_l gen_affix_guarded). Qed.
-Theorem protect_respected_refuted : exists s c, is_protect_call c = false /\ ~ unchanged_protected s (snd (exec false s c)).
+Proof. exact protect_respected_gen. Qed.
+Theorem protect_respected_refuted : ~ protect_respected_statement true false.
+Proof.
+  intro H. destruct protect_respected_refuted_updb as [s [c [H1 [_ H2]]]]. exact (H2 (H s c H1)).
+Qed.
+Theorem protect_respected_refuted_old_affix : exists s c, is_protect_call c = false /\ ~ unchanged_protected s (snd (exec false true s c)).
 Proof. exact protect_respected_refuted_unguarded. Qed.
 
-Theorem derived_chain_write_refused : forall ag s frags g, rw s = true -> p_dat (prot_of s g) = true ->
-  exec ag s (CPutData (chain frags (FRaw g))) = (RProtected, s).
+Theorem derived_chain_write_refused : forall ag ug s frags g, rw s = true -> p_dat (prot_of s g) = true ->
+  exec ag ug s (CPutData (chain frags (FRaw g))) = (RProtected, s).
 Proof. exact chain_write_refused. Qed.
 Theorem derived_chain_leaf : forall frags g, put_leaf (chain frags (FRaw g)) = Some g.
 Proof. exact put_leaf_chain. Qed.
-
-(* as built (frozen tree): the full statements hold for the model with the guards read from the source *)
-Theorem affix_calls_guarded_in_source : gen_affix_guarded = true.
-Proof. exact gen_affix_guarded_true. Qed.
-Theorem rdonly_inert_as_built : forall s c, rw s = false -> gen_exec s c = (RAccMode, s).
-Proof. exact rdonly_inert_gen. Qed.
-Theorem protect_respected_as_built : forall s c, is_protect_call c = false -> unchanged_protected s (snd (gen_exec s c)).
-Proof. exact protect_respected_gen. Qed.
